@@ -113,10 +113,15 @@ class C03Episode(Episode):
                   'cause': (cause or ['?'])[0], 'signals': [],
                   'children': mdl['children'], 'kids_at_t0': kids,
                   'kid_signals': [], 'step0': entry['step'],
+                  'blocked0': self.world.sim.blocked_total,
                   'zombie_at_t0': entry['effect'] == 'zombie'}
             self.episodes[p.pid] = ep
         ep['signals'].append((entry['t'], entry['sig'], entry['effect'],
                               entry['step']))
+        if entry['sig'] == 9 and 'blocked_kill' not in ep:
+            # bounded busy-waits of the daemon (reap_process waiting for a
+            # SIGKILLed worker's death latency) delay everything else
+            ep['blocked_kill'] = self.world.sim.blocked_total - ep['blocked0']
         if entry['sig'] == 9 and 'kids_at_kill' not in ep:
             # children that were alive when the SIGKILL round began (they
             # are signalled just before their worker)
@@ -129,7 +134,8 @@ class C03Episode(Episode):
     def slack(self, ep, upto_step):
         sc = self.cfg.get('step_cost', 0.0)
         return EPS + sc * max(0, upto_step - ep['step0'] + 2) + \
-            self.cfg.get('spawn_cost', 0.0) * 12
+            self.cfg.get('spawn_cost', 0.0) * 12 + \
+            ep.get('blocked_kill', 0.0)
 
     def judge(self):
         w = self.world
